@@ -279,8 +279,6 @@ def parallel(jobs, width):
 # ------------------------------------------------------------------ judging
 _slot_lock = threading.Lock()
 _slots = list(range(6))
-# Lines that only a recorded deviation of the rewrite table (an open finding of C06) explains.
-DEVS = {"n": 0, "first": []}
 
 
 def validate(ctx, path, nrows):
@@ -299,9 +297,6 @@ def validate(ctx, path, nrows):
     v = r["vectors"][-1]
     if v["n"] != nrows:
         raise vlib.Inconclusive("TraceAdGuardHome consumed %s of %d lines of %s" % (v["n"], nrows, path))
-    with _slot_lock:
-        DEVS["n"] += v["devs"]["n"]
-        DEVS["first"] += [dict(d, trace=os.path.basename(os.path.dirname(path))) for d in v["devs"]["first"]][:5]
     return v["bad"]
 
 
@@ -447,12 +442,6 @@ def run(ctx):
         sum(len(r) for k, (_, r) in traces.items() if k[0] == "B"), time.time() - t0))
 
     verdicts = parallel([(k, (lambda k=k: validate(ctx, traces[k][0], len(traces[k][1])))) for k in traces], 4)
-    main_devs = dict(DEVS, first=list(DEVS["first"]))
-    if main_devs["n"]:
-        ctx.log("NOTE: %d query lines are explained only by open findings of C06 (rewrite table: one of several equally specific "
-                "wildcard entries answers / an exact entry of the other family does not shadow a wildcard / an exception on a "
-                "canonical name cancels the CNAME); log and statistics agree with what was answered.  e.g. %s" % (
-                    main_devs["n"], main_devs["first"][:2]))
 
     # ---- rejected lines: reproduce on a fresh boot
     nbad, flaky, confirmed = 0, [], []
@@ -512,7 +501,6 @@ def run(ctx):
         "pairs_admin_call_then_query_covered": covered, "pairs_total": pairs,
         "universe_admin_calls": len(uni["admin"]), "universe_queries": len(uni["queries"]),
         "probe_transitions": len(edges),
-        "lines_explained_only_by_open_C06_findings": main_devs["n"], "first_such_lines": main_devs["first"][:5],
         "histories_with_rejected_line": nbad, "reproduced": len(confirmed), "unreproduced": flaky,
         "binding_demo": selftest, "negative_configurations": bg.get("neg"),
         "exhaustive": False,
